@@ -1025,6 +1025,67 @@ theorem depositAndDraw_inv (cfg : Nat → Option Product) (G : Gaps) (hc : CfgOk
     (deposit_inv cfg G s s1 p e from_ app prod vaultId amt hp hu hinv hdep) h
 
 /-- messages are signed by user accounts, never by the vault module account -/
+theorem sumBy_erase (f : LockedRec → Int) (L : List LockedRec) (l : LockedRec) (h : l ∈ L) :
+    sumBy f (L.erase l) = sumBy f L - f l := by
+  induction L with
+  | nil => cases h
+  | cons a t ih =>
+    by_cases e : a = l
+    · subst e; simp [sumBy_cons]; omega
+    · have hne : (a == l) = false := by simpa using e
+      rw [List.erase_cons, hne]
+      simp only [Bool.false_eq_true, if_false]
+      rcases List.mem_cons.mp h with rfl | ht
+      · exact absurd rfl e
+      · rw [sumBy_cons, sumBy_cons, ih ht]; omega
+
+/-- first-generation settlement keeps every ledger equation exactly (same offsets) -/
+theorem settle1_inv (cfg : Nat → Option Product) (G : Gaps) (s s' : State) (p : Product) (vaultId : Nat)
+    (hinv : InvG cfg G s) (hpc : ∀ l ∈ s.locked, l.product = p.id → cfg l.product = some p)
+    (h : settle1 s p vaultId = some s') : InvG cfg G s' := by
+  unfold settle1 at h
+  cases hf : s.locked.find? (fun x => decide (x.vaultId = vaultId)) with
+  | none => simp [hf] at h
+  | some l =>
+    simp only [hf] at h
+    split at h; · cases h
+    next hprod =>
+    simp only [Decidable.not_not] at hprod
+    cases h
+    obtain ⟨hm, hid⟩ := find_mem (·.vaultId) s.locked vaultId l hf
+    have hp := hpc l hm hprod
+    obtain ⟨hwf, hcnt, hcus, htot, hsup, hlim⟩ := hinv
+    obtain ⟨hnd, hvs, hnds, hss, hls⟩ := hwf
+    have hl := hls l hm
+    refine ⟨⟨hnd, hvs, hnds, hss, ?_⟩, hcnt, ?_, ?_, ?_, ?_⟩
+    · intro w hw; exact hls w (List.mem_of_mem_erase hw)
+    · intro d; have := hcus d; simpa [CustodyAtG, collRecorded] using this
+    · intro k
+      obtain ⟨hc, hmi⟩ := htot k
+      simp only [TotalsAtG, collOfProduct, mintedOfProduct, upd1] at hc hmi ⊢
+      rw [sumBy_erase _ s.locked l hm, sumBy_erase _ s.locked l hm]
+      by_cases hk : k = l.product
+      · subst hk; simp; constructor <;> omega
+      · have hk' : ¬ l.product = k := fun e => hk e.symm
+        simp [hk, hk']; constructor <;> omega
+    · intro d
+      have := hsup d
+      simp only [SupplyAtG, principalRecorded, upd1] at this ⊢
+      rw [sumBy_erase _ s.locked l hm]
+      simp only [denomOut_of cfg l.product p hp]
+      by_cases hd : d = p.denomOut
+      · subst hd; simp; omega
+      · simp [hd]; omega
+    · refine ⟨hlim.1, ?_⟩
+      intro k q hq
+      have := hlim.2 k q hq
+      simp only [upd1]
+      by_cases hk : k = l.product
+      · subst hk; simp
+        have h2 := hl.2
+        omega
+      · simp [hk]; exact this
+
 def Msg.userOk : Msg → Prop
   | .create f .. | .deposit f .. | .withdraw f .. | .draw f .. | .repay f .. | .close f .. | .depositAndDraw f ..
   | .stableCreate f .. | .stableDeposit f .. | .stableWithdraw f .. | .donate f .. => f ≠ vm
@@ -1043,6 +1104,23 @@ theorem step_inv (cfg : Nat → Option Product) (G : Gaps) (hc : CfgOk cfg) (s s
   unfold step at h
   cases m with
   | settle v => exact absurd hns (by simp [Msg.notSettle])
+  | settle1 v =>
+    simp only [Msg.product] at h
+    cases hf : s.locked.find? (fun x => decide (x.vaultId = v)) with
+    | none => simp [hf] at h
+    | some l0 =>
+      simp only [hf, Option.map_some] at h
+      cases hp : cfg l0.product with
+      | none => simp [hp] at h
+      | some p =>
+        simp only [hp] at h
+        split at h; · cases h
+        next hpid =>
+        simp only [Decidable.not_not] at hpid
+        simp only [stepP] at h
+        have hpc : ∀ l ∈ s.locked, l.product = p.id → cfg l.product = some p := by
+          intro l _ hlp; rw [hlp, hpid]; exact hp
+        exact settle1_inv cfg G s s' p v hinv hpc h
   | donate f d x => exact donate_inv cfg G s s' f d x hm hinv h
   | fund t d x => exact fund_inv cfg G s s' t d x hinv h
   | create f a pr i o =>
@@ -1139,20 +1217,6 @@ end Comdex.Vault
 /-! ### auction settlement: the one step that shifts the ledger equations (finding D13) -/
 namespace Comdex.Vault
 open Comdex
-
-theorem sumBy_erase (f : LockedRec → Int) (L : List LockedRec) (l : LockedRec) (h : l ∈ L) :
-    sumBy f (L.erase l) = sumBy f L - f l := by
-  induction L with
-  | nil => cases h
-  | cons a t ih =>
-    by_cases e : a = l
-    · subst e; simp [sumBy_cons]; omega
-    · have hne : (a == l) = false := by simpa using e
-      rw [List.erase_cons, hne]
-      simp only [Bool.false_eq_true, if_false]
-      rcases List.mem_cons.mp h with rfl | ht
-      · exact absurd rfl e
-      · rw [sumBy_cons, sumBy_cons, ih ht]; omega
 
 /-- the offsets after a settlement of locked vault `l` of product `p` -/
 def Gaps.afterSettle (G : Gaps) (p : Product) (l : LockedRec) : Gaps :=
